@@ -14,17 +14,18 @@ Section RelFacts.
   Variable n0 cur0 : nat.
   Variable FV : name -> option val.
   Variable resl : list name.
+  Variable mutl : list name.
   Notation prot0 := (prot0 n0 resl).
   Notation ext_at := (ext_at n0 resl).
   Notation kext := (kext n0 resl).
-  Notation vrel := (vrel n0 cur0 FV resl).
-  Notation vrels := (vrels n0 cur0 FV resl).
-  Notation srel := (srel n0 cur0 FV resl).
-  Notation agree := (agree n0 cur0 FV resl).
+  Notation vrel := (vrel n0 cur0 FV resl mutl).
+  Notation vrels := (vrels n0 cur0 FV resl mutl).
+  Notation srel := (srel n0 cur0 FV resl mutl).
+  Notation agree := (agree n0 cur0 FV resl mutl).
   Notation cinv := (cinv cur0).
   Notation chain_budget := (chain_budget n0).
-  Notation frame_rel := (frame_rel n0 cur0 FV resl).
-  Notation vars_rel := (vars_rel n0 cur0 FV resl).
+  Notation frame_rel := (frame_rel n0 cur0 FV resl mutl).
+  Notation vars_rel := (vars_rel n0 cur0 FV resl mutl).
 
   Hypothesis Hcur0 : cur0 < n0.
   Implicit Types P D : name -> Prop.
@@ -114,7 +115,17 @@ Section RelFacts.
   Lemma vars_rel_mono : forall fs fs1 l l', vars_rel fs l l' -> kext fs fs1 -> n0 <= length fs -> vars_rel fs1 l l'.
   Proof.
     intros fs fs1 l l' H K L. induction H; constructor; auto.
-    destruct H. split; auto. eapply vrel_mono; eauto.
+    destruct H as [H1 [H2|H2]]; split; auto. right. eapply vrel_mono; eauto.
+  Qed.
+
+  (* bindings about to be declared: always related values *)
+  Definition binds_rel (fs : list frame) (l l' : list (name * val)) : Prop :=
+    Forall2 (fun a a' => fst a = fst a' /\ vrel fs (snd a) (snd a')) l l'.
+
+  Lemma binds_rel_mono : forall fs fs1 l l', binds_rel fs l l' -> kext fs fs1 -> n0 <= length fs -> binds_rel fs1 l l'.
+  Proof.
+    intros fs fs1 l l' H K L. induction H; constructor; auto.
+    destruct H as [H1 H2]; split; auto. eapply vrel_mono; eauto.
   Qed.
 
   Lemma frame_rel_mono : forall fs fs1 fr fr', frame_rel fs fr fr' -> kext fs fs1 -> n0 <= length fs -> frame_rel fs1 fr fr'.
@@ -191,13 +202,14 @@ Section RelFacts.
 
   Lemma vars_rel_assoc : forall fs l l' x, vars_rel fs l l' ->
     match assoc x l, assoc x l' with
-    | Some v, Some v' => vrel fs v v'
+    | Some v, Some v' => mem x mutl = true \/ vrel fs v v'
     | None, None => True
     | _, _ => False
     end.
   Proof.
     induction 1 as [|[y v] [y' v'] l l' [H1 H2] H IH]; cbn; auto.
-    cbn in H1, H2. subst y'. destruct (String.eqb x y); auto.
+    cbn in H1, H2. subst y'. destruct (String.eqb x y) eqn:Q; auto.
+    apply String.eqb_eq in Q. subst. auto.
   Qed.
 
   Lemma Forall2_nth : forall {A B} (R : A -> B -> Prop) l l' g a, Forall2 R l l' -> nth_error l g = Some a ->
@@ -231,7 +243,7 @@ Section RelFacts.
 
   Lemma lookup_rel : forall fs0 fs fs' g x, Forall2 (frame_rel fs0) fs fs' ->
     match lookup fs g x, lookup fs' g x with
-    | Some v, Some v' => vrel fs0 v v'
+    | Some v, Some v' => mem x mutl = true \/ vrel fs0 v v'
     | None, None => True
     | _, _ => False
     end.
